@@ -59,10 +59,11 @@ const (
 	pathOtherAbsent
 	pathOtherPresent
 	pathHardlink
+	pathSymlinkToInput // the destination name is a symbolic link to the input file
 	numPathModes
 )
 
-var pathModeNames = []string{"same", "emptyname", "other-absent", "other-present", "hardlink"}
+var pathModeNames = []string{"same", "emptyname", "other-absent", "other-present", "hardlink", "symlink-to-input"}
 
 type scratch struct {
 	dir string
@@ -113,6 +114,11 @@ func runApply(s *scratch, orig []byte, ps []patch, viaDump bool, pathMode int, m
 		}
 	case pathHardlink:
 		if err := os.Link(inpath, linkpath); err != nil {
+			panic(err)
+		}
+	case pathSymlinkToInput:
+		outpath = filepath.Join(dir, "out.bin")
+		if err := os.Symlink(inpath, outpath); err != nil {
 			panic(err)
 		}
 	}
@@ -167,9 +173,9 @@ func runApply(s *scratch, orig []byte, ps []patch, viaDump bool, pathMode int, m
 		return fmt.Sprintf("output %q want %q", clip(got), clip(want))
 	}
 	switch pathMode {
-	case pathOtherAbsent, pathOtherPresent:
+	case pathOtherAbsent, pathOtherPresent, pathSymlinkToInput:
 		if in, _ := os.ReadFile(inpath); !bytes.Equal(in, orig) {
-			return fmt.Sprintf("input file modified while writing to another path: %q", clip(in))
+			return fmt.Sprintf("input file modified while writing to another path (%s): %q", pathModeNames[pathMode], clip(in))
 		}
 	case pathHardlink:
 		if in, _ := os.ReadFile(linkpath); !bytes.Equal(in, orig) {
